@@ -7,7 +7,6 @@ import (
 	"encoding/json"
 	"fmt"
 	"net"
-	"os"
 	"runtime"
 	"strings"
 	"sync"
@@ -111,8 +110,6 @@ func transportPair(kind string) (cli, srv net.Conn, err error) {
 	return c, a.c, nil
 }
 
-var phaseLog = os.Getenv("VSPDY_PHASES") != ""
-
 // hdr is a header block (names lower case).
 type hdr map[string][]string
 
@@ -158,12 +155,6 @@ func synHeaders(o op) (hdr, spdycli.SynInfo) {
 }
 
 func runCase(spec *caseSpec) *caseResult {
-	t0 := time.Now()
-	phase := func(n string) {
-		if phaseLog {
-			fmt.Fprintf(os.Stderr, "case %d %s +%v\n", spec.Idx, n, time.Since(t0))
-		}
-	}
 	res := &caseResult{Obs: map[string]int64{}}
 	cs := newCaseServer(spec.Scripts)
 	model := spdycli.NewModel(cs, spec.MaxStreams)
@@ -196,7 +187,6 @@ func runCase(spec *caseSpec) *caseResult {
 	}
 	obs := func(k string) { conn.Locked(func() { model.Obs[k]++ }) }
 
-	phase("connected")
 	// ---- the script ----
 	for _, o := range spec.Ops {
 		if dead() {
@@ -332,7 +322,6 @@ func runCase(spec *caseSpec) *caseResult {
 		}
 	}
 
-	phase("script done")
 	// ---- finale: let everything finish ----
 	if !dead() {
 		if r, _ := conn.Sync(waitLong); r == spdycli.SyncTimeout {
@@ -420,9 +409,7 @@ func runCase(spec *caseSpec) *caseResult {
 		}
 		return cs.runningHandlers() == 0
 	}
-	phase("finale sent")
 	quiesced := conn.WaitUntil(waitLong, ended)
-	phase("quiesced")
 	allDone := false
 	healthy := false
 	if !quiesced {
@@ -454,15 +441,24 @@ func runCase(spec *caseSpec) *caseResult {
 		}
 	}
 	if quiesced && !dead() {
-		conn.Locked(func() { allDone = ended() && !model.Dead() })
+		// First round trip: every frame sent so far (RST_STREAMs included) has
+		// been processed, so a handler that only starts running from now on
+		// finds its stream closed and cannot consume or send anything.
+		// Handlers already running are waited for. Only then is "all handlers
+		// have returned" a fact that holds before the final PING is sent, and
+		// every WINDOW_UPDATE their reads caused is queued ahead of its reply.
 		r, _ := conn.Sync(waitLong)
-		conn.Locked(func() { healthy = r == spdycli.SyncPong && !model.Dead() })
+		if r == spdycli.SyncPong {
+			conn.WaitUntil(waitShort, func() bool { return model.Dead() || cs.runningHandlers() == 0 })
+			conn.Locked(func() { allDone = ended() && !model.Dead() })
+			r, _ = conn.Sync(waitLong)
+			conn.Locked(func() { healthy = r == spdycli.SyncPong && !model.Dead() })
+		}
 		if r == spdycli.SyncTimeout {
 			res.Inconcl = "final PING not answered within the time limit"
 		}
 	}
 
-	phase("final sync")
 	// ---- shut down ----
 	conn.Close()
 	var end *bfe_spdy.VerifConnEnd
@@ -483,7 +479,6 @@ func runCase(spec *caseSpec) *caseResult {
 			What: fmt.Sprintf("%d handler goroutine(s) still blocked inside bfe_spdy %s after the connection ended:\n%s", n, waitLong, spdyStacks())})
 	}
 
-	phase("shut down")
 	// ---- final checks ----
 	var toks []int
 	for t := range spec.Scripts {
